@@ -28,8 +28,13 @@ pub struct Cfg {
     pub count: u32,
     pub md5: bool,
     /// delivery order: 0 emission, 1 reverse, 2 FDT last, 3 drop one source symbol, 4 every packet twice,
-    /// 5 object packets only (no FDT), 6 FDT only
+    /// 5 object packets only (no FDT), 6 FDT only, 7 emission order without the first symbol of any
+    /// block (every block stays pending), 8 emission order with hostile copies of the third object
+    /// packet injected after the second one (each payload-id byte in turn set to 0xFF)
     pub order: u8,
+    /// receiver configured with a 10-byte object cache (a third pending block is refused)
+    #[serde(default)]
+    pub small_cache: bool,
     /// replace the sender's FDT by a harness-written instance WITHOUT FEC-OTI attributes, so that
     /// the OTI only arrives in-band after the object has been attached to the FDT
     #[serde(default)]
@@ -85,7 +90,28 @@ pub fn prepare(c: &Cfg) -> Result<Prepared, String> {
     let n = rec.pkts.len();
     let fdt = rec.fdt_idx();
     let obj = rec.obj_idx(toi);
+    let mut hostile: Vec<usize> = Vec::new();
+    if c.order == 8 && obj.len() >= 3 {
+        let src = obj[2];
+        let bytes = rec.pkts[src].1.clone();
+        let hdr = bytes[2] as usize * 4;
+        let idl = if c.scheme == Scheme::Rs28Us { 8 } else { 4 };
+        for k in 0..idl {
+            if hdr + k < bytes.len() {
+                let mut b = bytes.clone();
+                b[hdr + k] = 0xFF;
+                rec.pkts.push((rec.pkts[src].0, b));
+                rec.info.push(rec.info[src].clone());
+                hostile.push(rec.pkts.len() - 1);
+            }
+        }
+    }
     let seq: Vec<usize> = match c.order {
+        7 => (0..n).filter(|i| !(rec.info[*i].toi == toi && rec.info[*i].esi == 0)).collect(),
+        8 => {
+            let cut = obj.get(1).map(|i| i + 1).unwrap_or(n);
+            (0..cut).chain(hostile.iter().cloned()).chain(cut..n).collect()
+        }
         0 => (0..n).collect(),
         1 => (0..n).rev().collect(),
         2 => obj.iter().chain(fdt.iter()).cloned().collect(),
@@ -147,7 +173,11 @@ pub fn body(p: &Prepared, cfg: &Cfg, ch: &mut Chooser) -> Obs {
     flute::verif::clock_reset(0);
     let mut obs = Obs::default();
     let res = catch(|| {
-        let mut rx = Some(MultiReceiver::new(mon.builder(), Some(recv_config(!cfg.receive_twice)), false));
+        let mut rc = recv_config(!cfg.receive_twice);
+        if cfg.small_cache {
+            rc.object_max_cache_size = Some(10);
+        }
+        let mut rx = Some(MultiReceiver::new(mon.builder(), Some(rc), false));
         let ep = endpoint();
         let mut t = p.rec.pkts[0].0;
         for &i in &p.seq {
@@ -202,13 +232,17 @@ pub fn body(p: &Prepared, cfg: &Cfg, ch: &mut Chooser) -> Obs {
             return obs;
         }
         let d = w.data();
-        if d.len() > p.content.len() || d[..] != p.content[..d.len()] {
+        // a forged packet (order 8) is indistinguishable from a repair symbol with other content: what the
+        // decoder then writes is not the sender's object, and only the MD5 can tell (C03). The content
+        // clauses are evaluated on authentic histories, the call-protocol clauses on all of them.
+        let authentic = cfg.order != 8;
+        if authentic && (d.len() > p.content.len() || d[..] != p.content[..d.len()]) {
             obs.violation = Some((format!("C09/writes-not-a-prefix{}", ctx), format!("writer log [{}]: {} bytes written are not a prefix of the {}-byte object", w.short(), d.len(), p.content.len())));
             return obs;
         }
         if w.is_complete() {
             obs.completes += 1;
-            if d != p.content {
+            if d != p.content && (authentic || cfg.md5) {
                 obs.violation = Some((format!("C09/complete-with-partial-content{}", ctx), format!("writer log [{}]: complete after {} of {} bytes", w.short(), d.len(), p.content.len())));
                 return obs;
             }
@@ -257,13 +291,20 @@ fn configs(thorough: bool) -> Vec<Cfg> {
                     if !thorough && (count == 2 && scheme != Scheme::NoCode || !md5 && cenc == 0 && scheme != Scheme::NoCode) {
                         continue;
                     }
+                    if cenc == 0 && len > 0 && count == 1 {
+                        // malformed and cache-exhausting histories (the writer is open when the receiver gives up)
+                        v.push(Cfg { scheme, e, b, parity, len, cenc, inband_fti, count, md5, order: 8, crafted_fdt: false, receive_twice: false, small_cache: false });
+                        for order in [0u8, 1, 7] {
+                            v.push(Cfg { scheme, e, b, parity, len: len + 5 * e as usize * b as usize, cenc, inband_fti, count, md5, order, crafted_fdt: false, receive_twice: false, small_cache: true });
+                        }
+                    }
                     for order in 0..7u8 {
-                        v.push(Cfg { scheme, e, b, parity, len, cenc, inband_fti, count, md5, order, crafted_fdt: false, receive_twice: false });
+                        v.push(Cfg { scheme, e, b, parity, len, cenc, inband_fti, count, md5, order, crafted_fdt: false, receive_twice: false, small_cache: false });
                         if count == 2 && order <= 2 {
-                            v.push(Cfg { scheme, e, b, parity, len, cenc, inband_fti, count, md5, order, crafted_fdt: false, receive_twice: true });
+                            v.push(Cfg { scheme, e, b, parity, len, cenc, inband_fti, count, md5, order, crafted_fdt: false, receive_twice: true, small_cache: false });
                         }
                         if inband_fti && order <= 4 && (thorough || order != 1) {
-                            v.push(Cfg { scheme, e, b, parity, len, cenc, inband_fti, count, md5, order, crafted_fdt: true, receive_twice: false });
+                            v.push(Cfg { scheme, e, b, parity, len, cenc, inband_fti, count, md5, order, crafted_fdt: true, receive_twice: false, small_cache: false });
                         }
                     }
                 }
